@@ -5,7 +5,9 @@ package engines
 import (
 	"context"
 	"crypto/ecdh"
+	"crypto/ecdsa"
 	"crypto/ed25519"
+	"crypto/elliptic"
 	"crypto/rand"
 	"crypto/sha256"
 	"crypto/x509"
@@ -310,5 +312,17 @@ func identFromCreds(c *types.NodeCredentials) *Ident {
 // per call, and the harness must not let byte-level faults depend on that.
 func detMarshal(m proto.Message) []byte {
 	b, _ := proto.MarshalOptions{Deterministic: true}.Marshal(m)
+	return b
+}
+
+// foreignAlgorithmPkix returns a well-formed PKIX public key that is not Ed25519 (X25519 or ECDSA P-256).
+func foreignAlgorithmPkix(which int) []byte {
+	if which == 0 {
+		k, _ := ecdh.X25519().GenerateKey(rand.Reader)
+		b, _ := x509.MarshalPKIXPublicKey(k.PublicKey())
+		return b
+	}
+	k, _ := ecdsa.GenerateKey(elliptic.P256(), rand.Reader)
+	b, _ := x509.MarshalPKIXPublicKey(&k.PublicKey)
 	return b
 }
